@@ -55,6 +55,10 @@ func init() {
 		req := args[1].(*value)
 		X.httpReqs = append(X.httpReqs, req)
 		event("http.Do")
+		if X.httpDoErr != nil {
+			event("http.Do:scripted-error")
+			return tuple{(*value)(nil), X.httpDoErr}
+		}
 		if X.choose(2) == 1 {
 			event("http.Do:error")
 			errorsPkg := fr.i.prog.ImportedPackage("errors")
@@ -78,6 +82,10 @@ func init() {
 		}
 		cell := value(resp)
 		return tuple{&cell, iface{}}
+	}
+	symExternals[rtPkg+"HTTPDoError"] = func(fr *frame, args []value) value {
+		X.httpDoErr = args[0]
+		return nil
 	}
 	symExternals[rtPkg+"LastHTTPStatus"] = func(fr *frame, args []value) value {
 		if X.lastHTTPStatus == nil {
